@@ -179,8 +179,15 @@ func c14ServiceHistory(c *core.Ctx, p idxParams, h int) bool {
 	var hist []idxMut
 	nReset, nQuery := 0, 0
 	for n := 1; n <= 40+r.Intn(40); n++ {
-		m, _, _ := env.mutate(r, ids, n)
-		hist = append(hist, m)
+		var m idxMut
+		if r.Intn(5) == 0 {
+			ms, _, _ := env.mutateTxn(r, ids, n)
+			hist = append(hist, ms...)
+			m = ms[len(ms)-1]
+		} else {
+			m, _, _ = env.mutate(r, ids, n)
+			hist = append(hist, m)
+		}
 		env.qs.Flush()
 		c.Eval(1)
 		// the gateway processes everything published since
